@@ -380,8 +380,7 @@ def signature(prop, clause):
     return f"{prop}:engine:{clause}"
 
 
-OBSERVER_FILES = ("uberjob/progress/_simple_progress_observer.py", "uberjob/progress/_html_progress_observer.py",
-                  "uberjob/progress/_composite_progress_observer.py")
+OBSERVER_FILES = ("uberjob/progress/",)
 
 
 def bundled_observer_tasks(seed, count, profile="mixed"):
